@@ -160,7 +160,10 @@ func runProg(ctx contract.KContext, text string) (*contract.Response, error) {
 			if err := need(2); err != nil {
 				return nil, err
 			}
-			k, _ := decField(a[1])
+			k, derr := decField(a[1])
+			if derr != nil {
+				return nil, derr
+			}
 			v, err := ctx.Get(a[0], k)
 			if err != nil {
 				fmt.Fprintf(&body, "get:%s:%s:ERR(%s);", a[0], a[1], err.Error())
@@ -171,8 +174,11 @@ func runProg(ctx contract.KContext, text string) (*contract.Response, error) {
 			if err := need(3); err != nil {
 				return nil, err
 			}
-			k, _ := decField(a[1])
-			v, _ := decField(a[2])
+			k, derr := decField(a[1])
+			v, derr2 := decField(a[2])
+			if derr != nil || derr2 != nil {
+				return nil, errors.New("bad hex field")
+			}
 			if err := ctx.Put(a[0], k, v); err != nil {
 				return nil, err
 			}
@@ -180,7 +186,10 @@ func runProg(ctx contract.KContext, text string) (*contract.Response, error) {
 			if err := need(2); err != nil {
 				return nil, err
 			}
-			k, _ := decField(a[1])
+			k, derr := decField(a[1])
+			if derr != nil {
+				return nil, derr
+			}
 			if err := ctx.Del(a[0], k); err != nil {
 				return nil, err
 			}
@@ -188,9 +197,12 @@ func runProg(ctx contract.KContext, text string) (*contract.Response, error) {
 			if err := need(4); err != nil {
 				return nil, err
 			}
-			lo, _ := decField(a[1])
-			hi, _ := decField(a[2])
-			n, _ := strconv.Atoi(a[3])
+			lo, e1 := decField(a[1])
+			hi, e2 := decField(a[2])
+			n, e3 := strconv.Atoi(a[3])
+			if e1 != nil || e2 != nil || e3 != nil {
+				return nil, errors.New("bad scan arguments")
+			}
 			it, err := ctx.Select(a[0], lo, hi)
 			if err != nil {
 				fmt.Fprintf(&body, "scan:ERR(%s);", err.Error())
@@ -211,7 +223,10 @@ func runProg(ctx contract.KContext, text string) (*contract.Response, error) {
 			if err := need(2); err != nil {
 				return nil, err
 			}
-			p, _ := decField(a[1])
+			p, derr := decField(a[1])
+			if derr != nil {
+				return nil, derr
+			}
 			resp, err := ctx.Call("xkernel", a[0], VerifMethod, map[string][]byte{"prog": p})
 			if err != nil {
 				if in.op == "call" {
@@ -228,8 +243,11 @@ func runProg(ctx contract.KContext, text string) (*contract.Response, error) {
 			if err := need(3); err != nil {
 				return nil, err
 			}
-			from, _ := decField(a[0])
-			to, _ := decField(a[1])
+			from, e1 := decField(a[0])
+			to, e2 := decField(a[1])
+			if e1 != nil || e2 != nil {
+				return nil, errors.New("bad transfer arguments")
+			}
 			amt, ok := new(big.Int).SetString(a[2], 10)
 			if !ok {
 				return nil, errors.New("bad amount")
@@ -241,18 +259,25 @@ func runProg(ctx contract.KContext, text string) (*contract.Response, error) {
 			if err := need(2); err != nil {
 				return nil, err
 			}
-			name, _ := decField(a[0])
-			b, _ := decField(a[1])
+			name, e1 := decField(a[0])
+			b, e2 := decField(a[1])
+			if e1 != nil || e2 != nil {
+				return nil, errors.New("bad event arguments")
+			}
 			ctx.AddEvent(&protos.ContractEvent{Contract: VerifContract, Name: string(name), Body: b})
 		case "use":
 			if err := need(4); err != nil {
 				return nil, err
 			}
 			var l contract.Limits
-			l.Cpu, _ = strconv.ParseInt(a[0], 10, 64)
-			l.Memory, _ = strconv.ParseInt(a[1], 10, 64)
-			l.Disk, _ = strconv.ParseInt(a[2], 10, 64)
-			l.XFee, _ = strconv.ParseInt(a[3], 10, 64)
+			var e1, e2, e3, e4 error
+			l.Cpu, e1 = strconv.ParseInt(a[0], 10, 64)
+			l.Memory, e2 = strconv.ParseInt(a[1], 10, 64)
+			l.Disk, e3 = strconv.ParseInt(a[2], 10, 64)
+			l.XFee, e4 = strconv.ParseInt(a[3], 10, 64)
+			if e1 != nil || e2 != nil || e3 != nil || e4 != nil {
+				return nil, errors.New("bad use arguments")
+			}
 			ctx.AddResourceUsed(l)
 		case "fail":
 			return nil, errors.New("verif program failed on purpose")
@@ -260,7 +285,10 @@ func runProg(ctx contract.KContext, text string) (*contract.Response, error) {
 			if err := need(1); err != nil {
 				return nil, err
 			}
-			status, _ = strconv.Atoi(a[0])
+			var serr error
+			if status, serr = strconv.Atoi(a[0]); serr != nil {
+				return nil, serr
+			}
 		default:
 			return nil, fmt.Errorf("unknown instr %q", in.op)
 		}
